@@ -119,6 +119,10 @@ where
         let log_budget = k.saturating_sub(log_delta);
 
         anyhow::ensure!(log_delta <= Self::max_log_delta_prec());
+        anyhow::ensure!(
+            k > 0 || (self.re.is_none() && self.im.is_none()),
+            "cannot encode a constant at torus precision k = 0"
+        );
 
         let scale = F::from_usize(log_delta).unwrap().exp2();
         let (re, im) = if log_delta + log_budget <= 63 {
